@@ -1,7 +1,7 @@
 (* C19 at the level of whole histories, for a writer without rotation in direct mode: for EVERY fault sequence
    and EVERY list of records, the file holds exactly the records whose own write (and the opening it needed)
    succeeded, in order; every lost record is reported; after the last fault nothing is lost. *)
-Require Import FL.Base.Bytes FL.Base.BytesFacts FL.Fs.Fs FL.Fs.FsFacts FL.Names.FileSpec FL.Flw.Model FL.Flw.ModelFacts FL.Flw.Run.
+Require Import FL.Base.Bytes FL.Base.BytesFacts FL.Fs.Fs FL.Fs.FsFacts FL.Names.FileSpec FL.Flw.Model FL.Flw.ModelFacts FL.Flw.Run FL.Flw.RunFacts.
 Open Scope nat_scope.
 
 (* the configurations covered: no rotation, direct mode (no buffer), synchronous, no symlink, no start-time part *)
@@ -41,13 +41,14 @@ Definition open_inv (c : config) (ino : nat) (x : sys) (data : bytes) (errs : na
     /\ content (wfs w) ino = data /\ werrs w = repeat EWrite errs /\ wfaults w = fl.
 
 Lemma open_step c ino x data errs fl b :
-  c_async c = false -> open_inv c ino x data errs fl ->
+  c_async c = false /\ fts (c_spec c) = false -> open_inv c ino x data errs fl ->
   exists x', step x (OWrite b) = (x', ObsRes 0%N false)
     /\ open_inv c ino x' (if fst (wr_step b fl) then data ++ b else data)
                          (if fst (wr_step b fl) then errs else S errs) (snd (wr_step b fl)).
 Proof.
-  intros Hasync (path & w & -> & K & W & L & C & E & F).
-  unfold step, mksys, mkflw; cbn [s_flw]. unfold is_async; cbn [f_cfg]. rewrite Hasync.
+  intros [Hasync Hts] (path & w & -> & K & W & L & C & E & F).
+  rewrite step_plain by (unfold mksys, mkflw; cbn [s_flw]; intros s' Es'; injection Es' as <-; exact Hts).
+  unfold step_core, mksys, mkflw; cbn [s_flw]. unfold is_async; cbn [f_cfg]. rewrite Hasync.
   unfold sync_step; cbn [s_flw s_tl s_w f_poisoned app s_dead].
   unfold write_buffer; cbn [f_inner f_cfg mount_next].
   unfold w_write; cbn [wcap wino]. unfold p_write.
@@ -91,7 +92,8 @@ Lemma closed_step_fail c x errs r b :
   exists x', step x (OWrite b) = (x', ObsRes 0%N false) /\ closed_inv c x' (S errs) r.
 Proof.
   intros (Hrot & Hcap & Hasync & Hsym & Hts) (w & -> & K & W & L & E & F).
-  unfold step, mksys, mkflw; cbn [s_flw]. unfold is_async; cbn [f_cfg]. rewrite Hasync.
+  rewrite step_plain by (unfold mksys, mkflw; cbn [s_flw]; intros s' Es'; injection Es' as <-; exact Hts).
+  unfold step_core, mksys, mkflw; cbn [s_flw]. unfold is_async; cbn [f_cfg]. rewrite Hasync.
   unfold sync_step; cbn [s_flw s_tl s_w f_poisoned app s_dead].
   unfold write_buffer; cbn [f_inner f_cfg].
   unfold initialize. rewrite Hrot. unfold open_log_file, do_symlink. rewrite Hsym.
@@ -108,7 +110,8 @@ Lemma closed_step_open c x errs fl b :
   exists ino x1, step x (OWrite b) = step x1 (OWrite b) /\ open_inv c ino x1 [] errs (tl fl).
 Proof.
   intros (Hrot & Hcap & Hasync & Hsym & Hts) (w & -> & K & W & L & E & F) Hhd.
-  unfold step, mksys, mkflw; cbn [s_flw]. unfold is_async; cbn [f_cfg]. rewrite Hasync.
+  rewrite step_plain by (unfold mksys, mkflw; cbn [s_flw]; intros s' Es'; injection Es' as <-; exact Hts).
+  unfold step_core, mksys, mkflw; cbn [s_flw]. unfold is_async; cbn [f_cfg]. rewrite Hasync.
   unfold sync_step; cbn [s_flw s_tl s_w f_poisoned app s_dead].
   unfold write_buffer; cbn [f_inner f_cfg].
   unfold initialize. rewrite Hrot. unfold open_log_file, do_symlink. rewrite Hsym, Hcap, name_plain by assumption.
@@ -135,7 +138,8 @@ Proof.
   cbn [snd bind fst].
   exists i. eexists (mksys (mkflw c (Active None {| wino := i; wpend := []; wcap := None |} (the_name c))) _).
   split.
-  - unfold mksys, mkflw; cbn [s_flw]. unfold is_async; cbn [f_cfg]. rewrite Hasync.
+  - rewrite step_plain by (unfold mksys, mkflw; cbn [s_flw]; intros s' Es'; injection Es' as <-; exact Hts).
+    unfold step_core, mksys, mkflw; cbn [s_flw]. unfold is_async; cbn [f_cfg]. rewrite Hasync.
     unfold sync_step; cbn [s_flw s_tl s_w f_poisoned app s_dead].
     unfold write_buffer; cbn [f_inner f_cfg with_inner f_poisoned]. reflexivity.
   - exists (the_name c). eexists. split; [reflexivity|].
@@ -162,7 +166,7 @@ Proof. destruct fl as [|[|] r]; cbn [hd]; intros H; [reflexivity | discriminate 
 (* ------------------------------------------------------------------ whole runs *)
 Definition all_ok (obs : list obs) : Prop := Forall (fun o => o = ObsRes 0%N false) obs.
 
-Lemma open_run c ino recs : c_async c = false ->
+Lemma open_run c ino recs : c_async c = false /\ fts (c_spec c) = false ->
   forall x data errs fl, open_inv c ino x data errs fl ->
   exists x' obs, run x (List.map OWrite recs) = (x', obs)
     /\ open_inv c ino x' (data ++ fst (fst (sim true fl recs))) (errs + snd (fst (sim true fl recs))) (snd (sim true fl recs))
@@ -211,7 +215,7 @@ Proof.
       rewrite Nat.add_succ_r. repeat split; try assumption. constructor; [reflexivity | assumption].
     + (* the file is opened; from here on the file stays open *)
       destruct (closed_step_open c x errs fl b P I Hhd) as (ino & x1 & S1 & I1).
-      assert (Hasync : c_async c = false) by apply P.
+      assert (Hasync : c_async c = false /\ fts (c_spec c) = false) by (destruct P as (_ & _ & A & _ & T); split; assumption).
       destruct (open_run c ino (b :: rest) Hasync _ _ _ _ I1) as (x' & obs & R & I' & Fo).
       exists x', obs. split; [cbn [List.map run] in *; rewrite S1; exact R|].
       rewrite sim_false_open by assumption.
@@ -292,7 +296,7 @@ Print Assumptions lost_only_failed.
 (* ------------------------------------------------------------------ the statement, computed on examples *)
 Definition ex_cfg (app : bool) : config :=
   {| c_spec := {| fbase := [97%N]; fdisc := None; fts := false; fsfx := Some [108%N; 111%N; 103%N] |};
-     c_append := app; c_cap := None; c_rot := None; c_utc := false; c_symlink := false; c_bg := false; c_async := false |}.
+     c_append := app; c_cap := None; c_rot := None; c_utc := false; c_symlink := false; c_bg := false; c_async := false; c_start := None |}.
 Definition ex_run (app : bool) (fl : list bool) (recs : list bytes) : bytes * list ecode * list bool :=
   let x := fst (run {| s_flw := None; s_w := set_faults (world0 0%Z 0%Z) fl; s_tl := []; s_dead := false |}
                     (OStart (ex_cfg app) :: List.map OWrite recs)) in
